@@ -1054,6 +1054,9 @@ class LangServer:
         def_obj = self.get_definition(file_obj, def_line, def_char)
         if def_obj is None:
             return None
+        # Intrinsics are not declared in the workspace
+        if isinstance(def_obj, Intrinsic):
+            return None
         # Determine global accessibility and type membership
         restrict_file = None
         type_mem = False
